@@ -96,7 +96,7 @@ def rule_R04_2(ctx):
     ty = fields[0]["ty"] if fields else ""
     r.inst("ScopeStack field: %s" % ty)
     SCALARS = ("usize", "u8", "u16", "u32", "u64", "i32", "i64", "isize", "bool", "char")
-    MAP = "std::collections::HashMap<std::string::String, (eval::value::SourcedValue"
+    MAP = anchors.scope_map_ty(prog)
 
     def shared_cell(t, depth=0):
         """Does type t hold scope maps, and only behind an Arc (so that a
@@ -132,7 +132,7 @@ def rule_R04_2(ctx):
         for c in f.calls():
             full = c.res_full or ""
             if (c.declared or "") == "std::clone::Clone::clone" and c.argtys \
-                    and c.argtys[0].lstrip("&").startswith("std::collections::HashMap<std::string::String, (eval::value::SourcedValue"):
+                    and c.argtys[0].lstrip("&").startswith(anchors.scope_map_ty(prog)):
                 n += 1
                 r.fail("%s | clones a scope map" % f.path,
                        "%s copies the bindings of a scope" % f.path, where=c.loc)
@@ -264,11 +264,21 @@ def rule_R04_4(ctx):
             if cc is not None and cc.res in {p.path for p in anchors.scope_pushers(prog)} \
                     and g.dominates(cc.bb, c.bb):
                 # pushed scope is a fresh empty map
-                a1 = g.canon_op(cc.args[1]) if len(cc.args) > 1 else ()
                 fresh_map = False
-                if a1 and a1[0][0] == "call":
-                    mc = g.call_at(a1[0][1])
-                    fresh_map = mc is not None and (mc.res or "").endswith("HashMap::<K, V>::new")
+                mi = [i for i, t in enumerate(cc.argtys) if t.startswith(anchors.scope_map_ty(prog))]
+                if mi:
+                    a1 = g.canon_op(cc.args[mi[0]])
+                    if a1 and a1[0][0] == "call":
+                        mc = g.call_at(a1[0][1])
+                        fresh_map = mc is not None and (mc.res or "").endswith("HashMap::<K, V>::new")
+                else:
+                    # the pusher takes no map: it creates the (empty) scope itself
+                    pf = prog.fns[cc.res]
+                    news = [x for x in pf.calls() if (x.res or "").endswith("HashMap::<K, V>::new")
+                            and anchors.scope_map_path(prog) in (x.res_full or "")]
+                    others = [x for x in pf.calls() if anchors.scope_map_path(prog) in (x.res_full or "")
+                              and (x.res or "").split("::")[-1] in ("insert", "extend", "entry", "from", "from_iter", "clone")]
+                    fresh_map = len(news) == 1 and not others
                 # fresh for every iteration: the push is inside every loop
                 # that contains the evaluation
                 per_iter = all(cc.bb in body for h, body in g.natural_loops().items() if c.bb in body)
